@@ -359,7 +359,9 @@ def jsonable(v):
         return {(k if isinstance(k, str) else "<%s %r>" % (type(k).__name__, k)): jsonable(x) for k, x in v.items()}
     if isinstance(v, list):
         return [jsonable(x) for x in v]
-    return v
+    if v is None or isinstance(v, (str, int, float, bool)):
+        return v
+    return "<%s %s>" % (type(v).__name__, v)      # a date, a timestamp, bytes
 
 
 def make_case(doc, desc, root):
